@@ -151,9 +151,9 @@ RULES = [
     (r'lib\.rs', r'impl Fr\b.*|impl Fq\b.*|impl FromStr for F[rq].*|impl TryFrom .* for F[rq]\b.*|impl From < & ?F[rq] > .*', 'C06 C07 C13'),
     (r'lib\.rs', r'impl Fq2\b.*|impl TryFrom .* for Fq2.*|impl From < Fq2 >.*', 'C12 C14'),
     (r'lib\.rs', r'::from(#\d+)?', 'C06 C12 C13'),     # `impl From<Fr|&Fr|Fq|Fq2> for [u8; N]` (header contains `;`)
-    (r'lib\.rs', r'impl G[12]\b.*::(from_|to_).*', 'C08 C10 C18'),
+    (r'lib\.rs', r'impl G[12]\b.*::(from_|to_).*', 'C08 C10 C18 C16'),
     (r'lib\.rs', r'impl G[12]\b.*::from_compressed', 'C14'),
-    (r'lib\.rs', r'impl G[12]\b.*|impl Group for G[12].*|impl (Add|Sub|Neg|Mul) .*G[12].*', 'C04 C05 C15 C16'),
+    (r'lib\.rs', r'impl G[12]::(?!from_|to_).*|impl Group for G[12].*|impl (Add|Sub|Neg|Mul) .*G[12].*', 'C04 C05 C15 C16'),
     (r'lib\.rs', r'impl Gt\b.*|impl Mul < Gt >.*', 'C11'),
     (r'lib\.rs', r'impl AffineG[12]\b.*|impl From < AffineG[12] >.*', 'C09 C15'),
     (r'lib\.rs', r'impl From < G2 > for G2Prepared.*|impl G2Prepared.*|::pairing$|::fast_pairing$', 'C01 C02 C03 C16'),
